@@ -127,6 +127,7 @@ type evRec struct {
 }
 
 type caseRun struct {
+	hold  sync.Mutex
 	id    string
 	mode  string
 	sup   *supervisor.LocalSupervisor
@@ -170,6 +171,8 @@ func newCase(id, mode, dir string, tw *trace.W, st *drv.Stats) *caseRun {
 	}
 	go func() {
 		for {
+			c.hold.Lock() // held while the subscriber is "slow" (burst cases)
+			c.hold.Unlock()
 			select {
 			case ev := <-ch:
 				c.onEvent(ev)
@@ -181,6 +184,16 @@ func newCase(id, mode, dir string, tw *trace.W, st *drv.Stats) *caseRun {
 	tw.Case(id)
 	tw.Init("%s", mode)
 	return c
+}
+
+// holdEvents makes the subscriber stop (true) / resume (false) reading the events channel; at most one
+// event that was already being received is still consumed after a stop.
+func (c *caseRun) holdEvents(on bool) {
+	if on {
+		c.hold.Lock()
+	} else {
+		c.hold.Unlock()
+	}
 }
 
 func (c *caseRun) now() time.Duration { return time.Since(c.t0) }
